@@ -182,6 +182,11 @@ def make_job(rng, nlines):
             g.rapid(z=round(rng.uniform(0, 5), 2), comment=rng.choice(["retract", "subir ñ", "上"]))
         elif r < 0.7:
             if rng.random() < 0.3:
+                # parenthesised comments inside a line, two of them with words in between
+                x, y = round(rng.uniform(-50, 50), 2), round(rng.uniform(-50, 50), 2)
+                g.write(rng.choice([f"G1 X{x} (first) Y{y} (second) F900", f"T{rng.randint(1, 9)} (tool) M6 (change)",
+                                    f"G0 Z{abs(x)} (a ; b) ; tail (c)"]))
+            elif rng.random() < 0.3:
                 # a host-command comment (";@..." lines are handed to process_host_command, unknown ones are ignored)
                 g.write(rng.choice([";@note layer done", "  ;@host beep"]))
             else:
@@ -200,10 +205,28 @@ def make_job(rng, nlines):
     return text.split("\n")[:-1] if text.endswith("\n") else text.split("\n")
 
 
+def strip_comments(line):
+    """Independent comment stripper (RS274 style): '(...)' anywhere in the line, ';' to the end of
+    the line unless it sits inside parentheses."""
+    out, depth = [], False
+    for ch in line:
+        if depth:
+            if ch == ")":
+                depth = False
+            continue
+        if ch == "(":
+            depth = True
+            continue
+        if ch == ";":
+            break
+        out.append(ch)
+    return "".join(out).strip()
+
+
 def expected_commands(job):
     out = []
     for line in job:
-        code = COMMENT.sub("", line).strip()
+        code = strip_comments(line)
         if code:
             out.append(code.encode("ascii"))
     return out
